@@ -849,8 +849,16 @@ class Item(DenContract):
         return {}
 
     def ensures(self, a, r, cx, case):
+        # item() is the entry of the lone tensor: the MANTISSA of the value.  The library's own use (and its test-suite:
+        # ``tn.item() * 10**tn.exponent`` after contract_hotrg_(equalize_norms=1.0)) multiplies the stored exponent back in,
+        # so the contract is value(network) == item() * 10**exponent  [an earlier version demanded the exponent inside
+        # item(); that was more than the library promises -- see DESIGN 8.8]
         dv = den_of(cx, r)
-        return {"result-kind": dv is not None, "value": same_den(dv, den_of(cx, a.self, pre=True)) if dv else False}
+        if dv is None:
+            return {"result-kind": False}
+        ex = cx.pre(a.self)["exponent"]
+        return {"result-kind": True,
+                "item()-times-ten-to-the-stored-exponent-is-the-value": same_den((dv[0] + ex, dv[1]), den_of(cx, a.self, pre=True))}
 
     def inputs(self, cx, case):  # noqa: F811
         tn = new_tn(cx, "self")
